@@ -1,6 +1,7 @@
-import EupsModel.Drv.Util
+import EupsModel.Drv.C06
 namespace EupsModel.Drv.C07
 open Lean EupsModel EupsModel.Drv
-/-- placeholder until the C07 model exists -/
-def handle : Handler := fun _ => throw "model C07 not built"
+/-- C07 runs the same world model as C06 (`Drv/C06.lean`): histories with two users, crashes and cache
+deletions. -/
+def handle : Handler := C06.handle
 end EupsModel.Drv.C07
